@@ -15,6 +15,11 @@ macro_rules! push_unchecked {
     ($buf:ident <- $bytes:expr) => {
         {
             let (buf_len, bytes_len) = ($buf.len(), $bytes.len());
+            #[cfg(ohkami_verif)]
+            if buf_len + bytes_len > $buf.capacity() {
+                $crate::__verif__::overrun(buf_len, bytes_len, $buf.capacity());
+                $buf.reserve(bytes_len);
+            }
             std::ptr::copy_nonoverlapping(
                 $bytes.as_ptr(),
                 $buf.as_mut_ptr().add(buf_len),
